@@ -396,25 +396,16 @@ class NestedChildren(WrappingQuery):
             if docid <= self._nextchild:
                 return
 
-            # self._nextparent is the next parent ID (matching or not)
-            if docid < self._nextparent:
-                # Just iterate
-                while self.is_active() and self.id() < docid:
-                    self.next()
-            elif wanted.is_active():
-                # Find the parent before the target ID
-                pid = comb.before(docid)
-                # Skip the parent matcher to that ID
-                wanted.skip_to(pid)
-                # If that made the matcher inactive, then we're done
-                if not wanted.is_active():
-                    self._nextchild = self._nextparent = self.limit
-                else:
-                    # Reestablish for the next child after the next matching
-                    # parent
-                    self._find_next_children()
-            else:
-                self._nextchild = self._nextparent = self.limit
+            # self._nextparent is the next parent ID (matching or not); pass
+            # over whole groups of children that end before the target (the
+            # parent matcher already stands on the next wanted parent)
+            while self.is_active() and self._nextparent <= docid:
+                self._nextchild = self._nextparent
+                self._find_next_children()
+
+            # Iterate inside the group
+            while self.is_active() and self.id() < docid:
+                self.next()
 
         def value(self):
             raise NotImplementedError(self.__class__)
